@@ -34,7 +34,7 @@ type Item struct {
 	Name   string            // Lean name (inside namespace Moc.Gen)
 	File   string            // path relative to the repo root
 	Func   string            // "Recv.Method" or "Func" ("" for package-level const/var)
-	Sel    string            // selector: "if:N" | "return:N" | "const:NAME" | "elseif:N" | "case:N:M" | "regexp:VAR" | "sqlconst:NAME:REGEX" | "callarg:FN:N:ARG"
+	Sel    string            // selector: "if:N" | "return:N" | "const:NAME" | "elseif:N" | "case:N:M" | "regexp:VAR" | "sqlconst:NAME:REGEX" | "callarg:FN:N:ARG" | "bodytext"
 	Params string            // Lean binder text, e.g. "(createdAt since : Int)"
 	Type   string            // Lean result type: Bool | Int | String | Nat
 	Rename map[string]string // Go source text of a sub-expression -> Lean text
@@ -433,6 +433,10 @@ func extract(repo string, it Item) (sourceTxt, lean string, err error) {
 			k++
 		}
 		return "", "", fmt.Errorf("append call #%d not found", n)
+	case "bodytext":
+		// the whole function body as a normalised source string
+		t := norm(src(fd.Body))
+		return t, leanString(t), nil
 	case "iftext":
 		// whole if statement (init; cond {body}) as a normalised source string
 		n, err := idx(1)
